@@ -352,24 +352,33 @@ def check(ctx):
     # ---- C13.7 restore re-establishes the flow ----------------------------------------------------------------------------
     o = Ob('C13.7', 'K2', 'restore_functionality: finished part => a hand-over attempt is scheduled; idle => upstream notified; events unpaused')
     obs.append(o)
+    restore_flow(ctx, o)
+    return obs
+
+
+def restore_flow(ctx, o):
+    """shared by C13.7 and C03.11: whatever the waiting flag says, a restored machine re-offers a finished part and an idle
+    one announces free space (notifications that arrived while it was down were ignored, so the flag proves nothing)"""
+    P = ctx.P
+    c = P.cls('PartProcessor')
     g = ctx.graph(c, 'restore_functionality')
-    an = Analysis(P, g, ['_part', '_output', '_is_shut_down', '_block_input', '#pending'])
+    an = Analysis(P, g, ['_part', '_output', '_is_shut_down', '_block_input', '_waiting_for_downstream_space', '#pending'])
     an.node_hooks.extend([dv.ghost_hook({'#pending'}), dv.notify_hook])
-    for pv, ov in (('N', 'N'), ('S', 'N'), ('N', 'S')):
-        s0 = State({'_part': pv, '_output': ov, '_is_shut_down': 'T', '_block_input': 'F', '#pending': 'F'})
+    for pv, ov, wv in (('N', 'N', 'F'), ('N', 'N', 'T'), ('S', 'N', 'F'), ('S', 'N', 'T'), ('N', 'S', 'F'), ('N', 'S', 'T')):
+        s0 = State({'_part': pv, '_output': ov, '_is_shut_down': 'T', '_block_input': 'F', '_waiting_for_downstream_space': wv, '#pending': 'F'})
         res = ctx.explore(an, [s0])
         for st in res.exits():
             o.count()
-            o.witness((pv, ov))
+            o.witness((pv, ov, wv))
             if st.fields['_is_shut_down'] != 'F':
                 o.fail(P, 'PartProcessor.restore_functionality', 'self._is_shut_down = False', 'restore leaves the machine down', file=c.mod.path, line=P.method(c, 'restore_functionality')[1].lineno)
             if ov == 'S' and st.fields['#pending'] != 'T':
-                o.fail(P, 'PartProcessor.restore_functionality', 'self._schedule_pass_part_downstream()', 'a finished part is not offered again after the restore', file=c.mod.path,
-                       line=P.method(c, 'restore_functionality')[1].lineno, path=res.path_lines(g.exit, st))
+                o.fail(P, 'PartProcessor.restore_functionality', 'self._schedule_pass_part_downstream()',
+                       f'a finished part is not offered again after the restore (waiting flag {"armed" if wv == "T" else "clear"} at entry: a notification that arrived while the machine was down was ignored, so nothing else will retry)',
+                       file=c.mod.path, line=P.method(c, 'restore_functionality')[1].lineno, path=res.path_lines(g.exit, st))
             if pv == 'N' and ov == 'N' and 'notified' not in st.flags:
                 o.fail(P, 'PartProcessor.restore_functionality', 'self.notify_upstream_of_available_space()', 'a restored idle machine does not announce that it can take a part', file=c.mod.path,
                        line=P.method(c, 'restore_functionality')[1].lineno, path=res.path_lines(g.exit, st))
-    return obs
 
 
 CLAIM = {
